@@ -211,6 +211,43 @@ pub fn run(tier: Tier) -> i32 {
         ("expected", J::f64s(&bit_labels(&[3, 4]).fold(-1.0).data)),
     ]));
 
+    // scale: many axes (every shape over lengths {1,2} with 6..9 axes) and long axes (255..65537)
+    {
+        let mut sc = crate::enumerate::scale_shapes(tier.pick(9, 11));
+        if tier.thorough() {
+            // total allele counts beyond 2^24 (the f32 integer limit), odd and even
+            sc.push(vec![16_777_218]);
+            sc.push(vec![16_777_219]);
+        }
+        let res = par_each(&sc, |s| {
+            // definition check with integer labels (exact) for two fills; mirror symmetry
+            let x = RefArray::from_fn(s, |f, _| ((f * 7) % 1013 + 1) as f64);
+            let mut viols: Vec<Viol> = Vec::new();
+            for (fname, fill) in [("zero", 0.0), ("nan", f64::NAN)] {
+                let expect = x.fold(fill);
+                match real_fold(&x, fill) {
+                    Ok(got) if same_arr(&got, &expect) => {}
+                    Ok(got) => {
+                        let at = got.data.iter().zip(&expect.data).position(|(a, b)| !same_f64(*a, *b));
+                        viols.push((format!("C05|lib|cells-wrong|scale,{}axes", s.len().min(6)), format!("fold(fill={fname}) of shape {s:?}: first wrong cell at flat position {at:?}"), case_j(s, "lin", fname)));
+                    }
+                    Err(p) => viols.push((format!("C05|lib|panic|{}", norm_msg(&p)), format!("fold of shape {s:?} panicked: {p}"), case_j(s, "lin", fname))),
+                }
+            }
+            viols
+        });
+        for v in res.into_iter().flatten() {
+            rep.violation(v.0, v.1, v.2);
+        }
+        rep.part(Part {
+            name: "lib: scale (many axes, long axes)".into(),
+            evaluations: 2 * sc.len() as u64,
+            nontrivial: 2 * sc.len() as u64,
+            note: format!("{} shapes: every shape over lengths {{1,2}} with 6..{} axes, 3^7, (2,3)^4, and axes of 255..65 537 entries alone and next to short axes (thorough: also 2^24+2 and 2^24+3 entries); fills 0 and NaN against the multi-index definition", sc.len(), tier.pick(9, 11)),
+            exhaustive: true,
+            extra: vec![],
+        });
+    }
     // sparse spectra: every basis vector and every zero mirror pair (a fold that treats zeros
     // specially is not linear, so label spectra without zeros cannot see it)
     let sparse_shapes: Vec<Vec<usize>> = shapes(4, 1, 7, tier.pick(30, 52));
